@@ -185,7 +185,7 @@ def r2_key_agreement(ctx):
   fields = {f.name for f in tables.dataclass_fields(ctx, common.OPCFG)}
   always = {f.name for f in tables.dataclass_fields(ctx, common.OPCFG)
             if not (isinstance(f.default, ast.Constant) and f.default.value is None)}
-  for k, n in common.const_subscript_keys(nc.node, lambda b: isinstance(b, ast.Subscript)):
+  for k, n in common.const_subscript_keys(nc.node, lambda b: isinstance(b, ast.Subscript) and isinstance(b.slice, ast.Constant) and b.slice.value == 'op_config'):
     ctx.check(R, k in fields, n, nc, n, f'need_calibration reads key {k!r} which is not an OpQuantizationConfig field')
     ctx.check(R, k in always, n, nc, n, f'need_calibration subscripts key {k!r} which to_dict omits when None')
   for n in ast.walk(nc.node):
